@@ -209,6 +209,7 @@ class OutboundSim(PeerSim):
     async def _do_send(self, ent, t, k):
         eut = self.eut
         snap = self.snapshot()
+        it0 = self.loop.n_iters
         try:
             if t == "1":
                 await eut.send_test_req()
@@ -221,7 +222,11 @@ class OutboundSim(PeerSim):
             self.busy = False
             self.probe("refused_in_" + ent["state"])
             after = self.snapshot()
-            if after != snap and self.violation is None:
+            if self.loop.n_iters != it0:
+                # the refusal came after a suspension (state hook): other tasks may have sent meanwhile, the
+                # before/after comparison of the shared counters says nothing about this send
+                self.probe("refused_after_a_suspension")
+            elif after != snap and self.violation is None:
                 diff = {x: (snap[x], after[x]) for x in snap if snap[x] != after[x]}
                 what = "+".join(sorted(diff))
                 self.violation = Violation(
